@@ -166,6 +166,10 @@ func (s *serverSocket) onPacket(header *parser.PacketHeader, eventName string, d
 
 func (s *serverSocket) onDisconnect() {
 	s.debug.Log("Got disconnect packet")
+	// The connection knows the socket before the socket is connected (see Namespace.doConnect).
+	// Wait until the admission is over. A socket that is not connected yet cannot be closed.
+	s.conn.admitMu.Lock()
+	s.conn.admitMu.Unlock()
 	s.onClose(ReasonClientNamespaceDisconnect)
 }
 
@@ -356,6 +360,12 @@ func (s *serverSocket) onError(err error) {
 
 func (s *serverSocket) onClose(reason Reason) {
 	s.debug.Log("Going to close the socket if it is not already closed. Reason", reason)
+
+	// A socket that is not connected yet has nothing to close. This must not use up `closeOnce`:
+	// the socket might connect afterwards, and nothing could close it then.
+	if !s.Connected() {
+		return
+	}
 
 	// Server socket is one-time, it cannot be reconnected.
 	// We don't want it to close more than once,
